@@ -166,4 +166,153 @@ theorem tie_rsaLastChunk (limit i len : Int) : rsaLastChunk limit i len = decide
 theorem tie_rsaEmptyInput (n : Nat) : rsaEmptyInput n = decide (n = 0) := by
   unfold rsaEmptyInput; simp
 
+/-! ### round 5: the decrypters of a route group; delegating constructors and options -/
+
+/-- the key loading of `signatureVerifier`, TRANSLATED: a map made fresh for the call, one store
+`decrypters[key.Fingerprint] = NewRsaDecrypter(key.KeyFile)` per key of the group's own `signature.PrivateKeys`, a failed
+load ends it — equal to the model's `loadDecrypters` for EVERY loader and key list. (A map kept in the engine and shared
+between groups, a swapped fingerprint / file, a store before the error check are refused by the translator.) -/
+theorem tie_loadDecrypters {D : Type} (load : String → Option D) (keys : List KeyConf) :
+    svLoadDecrypters load keys = GoZero.C18.loadDecrypters load keys := rfl
+
+/-- … and that map — no other — is the gate's second argument, on both call sites -/
+theorem tie_gateMap : svGateMap = ["decrypters"]
+    ∧ contentSecurityArgs = ["ng.conf.MaxBytes | decrypters | signature.Expiry | signature.Strict",
+        "ng.conf.MaxBytes | decrypters | signature.Expiry | signature.Strict | ng.unsignedCallback"] := by decide
+
+/-- `ParseContentSecurity` gets the gate's decrypters and THIS request; the secret field is what is decrypted, the first
+header value and the decrypted secret are what `ParseHeader` splits -/
+theorem tie_parseContentSecurityCalls : parseContentSecurityArgs = ["decrypters | r"]
+    ∧ decryptBase64Args = ["secret"] ∧ parseHeaderArgs = ["contentSecurity", "string(decryptedSecret)"] := by decide
+
+/-- the one-line constructors forward everything: `ContentSecurityHandler(decrypters, tolerance, strict, callbacks...)` =
+`LimitContentSecurityHandler(maxBytes, decrypters, tolerance, strict, callbacks...)` -/
+theorem tie_contentSecurityWrapper : contentSecurityWrapperArgs = ["maxBytes | decrypters | tolerance | strict | callbacks..."] := by decide
+
+/-- `HmacBase64(key, body)` is the base64 of `Hmac(key, body)`, which writes exactly `body` into the keyed hash -/
+theorem tie_hmacCalls : hmacCallArgs = ["key | body"] ∧ hmacWriteArgs = ["h | body"] := by decide
+
+/-- the options of `Authorize` and the server-level callback setters store what they are given -/
+theorem tie_authorizeOptions : withPrevSecretAssigns = ["opts.PrevSecret = secret"]
+    ∧ authWithCallbackAssigns = ["opts.Callback = callback"]
+    ∧ withUnsignedCallbackCalls = ["svr.ngin.setUnsignedCallback(callback)"] := by decide
+
+/-! ### round 5: whole bodies TRANSLATED into decision functions (which effects run, in order, for every outcome of the
+conditions) and proven equal to the model's decisions for all arguments -/
+
+/-- `Authorize`'s closure: parse; an error, an invalid token, claims of another type each end in `unauthorized` (and
+nothing else); only otherwise the wrapped handler is called, with the request that carries the new context -/
+theorem tie_authorizeEffects (e v c : Bool) : authorizeEffects e v c =
+    "parser.ParseToken(r, secret, authOpts.PrevSecret)" ::
+      (if e then ["unauthorized(w, r, err, authOpts.Callback)"]
+       else if !v then ["unauthorized(w, r, errInvalidToken, authOpts.Callback)"]
+       else if !c then ["unauthorized(w, r, errNoClaims, authOpts.Callback)"]
+       else ["next.ServeHTTP(w, r.WithContext(ctx))"]) := by
+  cases e <;> cases v <;> cases c <;> rfl
+
+def parsedValid {C : Type} : Parsed C → Bool
+  | .tok v _ => v
+  | .err => false
+
+def parsedHasClaims {C : Type} : Parsed C → Bool
+  | .tok _ (some _) => true
+  | _ => false
+
+/-- … which is the model's `authorize`: the extracted decision, fed with what `ParseToken` returned, calls the handler
+exactly when the model says it runs — for every verify function, history, secret pair and clock -/
+theorem tie_authorize_model {V : Type} (verify : String → Parsed (List (String × V))) (h : Hist) (secret prev : String)
+    (clock : Int) :
+    ("next.ServeHTTP(w, r.WithContext(ctx))" ∈
+        authorizeEffects (parseToken verify h secret prev clock).2.isErr (parsedValid (parseToken verify h secret prev clock).2)
+          (parsedHasClaims (parseToken verify h secret prev clock).2))
+      ↔ (authorize verify h secret prev clock).2.ran = true := by
+  unfold authorize
+  simp only []
+  rcases hr : (parseToken verify h secret prev clock).2 with _ | ⟨valid, claims⟩
+  · simp [Parsed.isErr, parsedValid, parsedHasClaims, authorizeEffects]
+  · cases valid <;> cases claims <;> simp [Parsed.isErr, parsedValid, parsedHasClaims, authorizeEffects]
+
+/-- `unauthorized`: the user's callback (when there is one) goes FIRST, then 401 is written — in every case -/
+theorem tie_unauthorizedEffects (hasErr hasCallback : Bool) : unauthorizedEffects hasErr hasCallback =
+    (if hasCallback then ["callback(writer, r, err)"] else []) ++ ["writer.WriteHeader(http.StatusUnauthorized)"] := by
+  cases hasErr <;> cases hasCallback <;> rfl
+
+/-- the gate's closure as a decision function of the method, the two checks' results and the body/type flags -/
+theorem tie_csGateEffects (method : String) (pe pass hb enc : Bool) : csGateEffects method pe pass hb enc =
+    (if gatedMethods.contains method then
+       "security.ParseContentSecurity(decrypters, r)" ::
+         (if pe then ["executeCallbacks(w, r, next, strict, httpx.CodeSignatureInvalidHeader, callbacks)"]
+          else "security.VerifySignature(r, header, tolerance)" ::
+            (if !pass then ["executeCallbacks(w, r, next, strict, code, callbacks)"]
+             else if hb && enc then ["LimitCryptionHandler(limitBytes, header.Key)(next).ServeHTTP(w, r)"]
+             else ["next.ServeHTTP(w, r)"]))
+     else ["next.ServeHTTP(w, r)"]) := by
+  unfold csGateEffects gatedMethods
+  cases pe <;> cases pass <;> cases hb <;> cases enc <;> rfl
+
+/-- what the LAST effect of the gate's closure does to the request, in the model's terms (default callback) -/
+def csInterpret (C : BlockCipher) (cfg : CsCfg) (req : CsReq) (inner : Inner) (key : Bytes) (last : String) : Resp :=
+  if last = "next.ServeHTTP(w, r)" then plainNext inner req.body
+  else if last = "LimitCryptionHandler(limitBytes, header.Key)(next).ServeHTTP(w, r)" then
+    cryptionHandler C cfg.limit key req.cl req.body inner
+  else verificationFailure cfg.strict inner req.body
+
+def parseFailed : Except CsParseErr CsHeader → Bool
+  | .error _ => true
+  | .ok _ => false
+
+def headerOf : Except CsParseErr CsHeader → CsHeader
+  | .ok h => h
+  | .error _ => { key := [], timestamp := "", contentType := 0, signature := "" }
+
+/-- THE MODEL'S GATE IS THE EXTRACTED DECISION: `contentSecurity` = the last effect of the translated closure, fed with
+the results of `parseContentSecurity` / `verifySignature` and the framing / type flags, interpreted with the model's
+pieces — for every cipher, environment, configuration, request and handler -/
+theorem tie_csGate_model (C : BlockCipher) (env : CsEnv) (cfg : CsCfg) (req : CsReq) (inner : Inner) :
+    contentSecurity C env cfg req inner =
+      csInterpret C cfg req inner (headerOf (parseContentSecurity env req)).key
+        ((csGateEffects req.method (parseFailed (parseContentSecurity env req))
+            (decide (verifySignature env cfg.tol req (headerOf (parseContentSecurity env req)) = 0))
+            (decide (req.cl ≠ 0)) (decide ((headerOf (parseContentSecurity env req)).contentType = 1))).getLast?.getD "") := by
+  rw [tie_csGateEffects]
+  unfold contentSecurity
+  by_cases hg : gatedMethods.contains req.method = true
+  · rw [if_pos hg, if_pos hg]
+    cases hp : parseContentSecurity env req with
+    | error e => simp [parseFailed, csInterpret]
+    | ok h =>
+      simp only [parseFailed, headerOf]
+      by_cases hv : verifySignature env cfg.tol req h = 0
+      · by_cases h1 : req.cl = 0 <;> by_cases h2 : h.contentType = 1 <;> simp [hv, h1, h2, csInterpret]
+      · simp [hv, csInterpret]
+  · rw [if_neg hg, if_neg hg]
+    simp [csInterpret]
+
+/-- `handleVerificationFailure`: strict ⇒ 403 and NOTHING else; the handler is called only in the non-strict case — the
+model's `verificationFailure` -/
+theorem tie_verificationFailureEffects (strict : Bool) : verificationFailureEffects strict =
+    (if strict then ["w.WriteHeader(http.StatusForbidden)"] else ["next.ServeHTTP(w, r)"]) := by
+  cases strict <;> rfl
+
+theorem tie_verificationFailure_model (strict : Bool) (inner : Inner) (body : Bytes) :
+    ("next.ServeHTTP(w, r)" ∈ verificationFailureEffects strict) ↔ (verificationFailure strict inner body).ran = true := by
+  cases strict <;> simp [verificationFailureEffects, verificationFailure, plainNext]
+
+/-- `executeCallbacks` calls every callback, each with this request, the handler, the strictness and the code -/
+theorem tie_executeCallbacksEffects : executeCallbacksEffects = ["range callbacks", "callback(w, r, next, strict, code)"] := by decide
+
+/-- `LimitCryptionHandler`'s closure: the flush is deferred FIRST; no body ⇒ the handler with the cryption writer; otherwise
+the body is decrypted, an error ⇒ 400 and nothing else, success ⇒ the handler with the cryption writer -/
+theorem tie_cryptionEffects (noBody decryptErr : Bool) : cryptionEffects noBody decryptErr =
+    "defer cw.flush(r.Context(), key)" ::
+      (if noBody then ["next.ServeHTTP(cw, r)"]
+       else "decryptBody(limitBytes, key, r)" ::
+         (if decryptErr then ["w.WriteHeader(http.StatusBadRequest)"] else ["next.ServeHTTP(cw, r)"])) := by
+  cases noBody <;> cases decryptErr <;> rfl
+
+/-- … the model's `cryptionHandlerViaRead`: the handler runs iff there is no body or the body could be read and decrypted -/
+theorem tie_cryption_model (noBody decryptErr : Bool) :
+    ("next.ServeHTTP(cw, r)" ∈ cryptionEffects noBody decryptErr) ↔ (noBody = true ∨ decryptErr = false) := by
+  cases noBody <;> cases decryptErr <;> simp [cryptionEffects]
+
 end GoZero.C18.TieRest
